@@ -200,6 +200,162 @@ def direct_case(draw):
     return {'kind': kind, 'entries': entries, 'crc': crc}
 
 
+# ---------------------------------------------------------------- concurrent inserts (several Crazyflies sharing one cache directory)
+class _Gate:
+    """the harness owns the schedule: every file operation of an insert (open, write, close, rename, remove ...) waits for its turn"""
+
+    def __init__(self, order):
+        import threading
+        self.order = list(order)
+        self.cv = threading.Condition()
+        self.finished = set()
+        self.tid = threading.local()
+
+    def turn(self):
+        me = getattr(self.tid, 'v', None)
+        if me is None:
+            return
+        with self.cv:
+            waited = 0.0
+            while True:
+                while self.order and self.order[0] in self.finished:
+                    self.order.pop(0)
+                if not self.order or self.order[0] == me:
+                    if self.order:
+                        self.order.pop(0)
+                    self.cv.notify_all()
+                    return
+                if me not in self.order:
+                    # nothing scheduled for this thread any more: it runs after everything that was scheduled
+                    pass
+                self.cv.wait(0.05)
+                waited += 0.05
+                if waited > 20:
+                    raise RuntimeError('harness gate timeout')
+
+    def finish(self, me):
+        with self.cv:
+            self.finished.add(me)
+            self.cv.notify_all()
+
+
+def run_concurrent(case):
+    """two or three TocCache objects on ONE writable directory insert different tables (different checksums) at the same time; the file
+    operations are interleaved as the case says; afterwards every checksum yields its own table or nothing"""
+    import threading
+    import cflib.crazyflie.toccache as tc
+    from cflib.crazyflie.log import LogTocElement
+    from cflib.crazyflie.param import ParamTocElement
+    out = Outcome()
+    d = tempfile.mkdtemp(prefix='verif-c11c-')
+    gate = _Gate(case['order'])
+    real_open, real_os = open, tc.os
+
+    class _File:
+        def __init__(self, f):
+            self._f = f
+
+        def write(self, x):
+            gate.turn()
+            return self._f.write(x)
+
+        def close(self):
+            gate.turn()
+            return self._f.close()
+
+        def __enter__(self):
+            return self
+
+        def __exit__(self, *a):
+            self.close()
+            return False
+
+        def __getattr__(self, n):
+            return getattr(self._f, n)
+
+    def gated_open(path, mode='r', *a, **k):
+        gate.turn()
+        f = real_open(path, mode, *a, **k)
+        return _File(f) if ('w' in mode or 'a' in mode or '+' in mode) else f
+
+    class _Os:
+        def __getattr__(self, n):
+            v = getattr(real_os, n)
+            if n in ('replace', 'rename', 'remove', 'unlink', 'link', 'fsync'):
+                def g(*a, **k):
+                    gate.turn()
+                    return v(*a, **k)
+                return g
+            return v
+    tables = []
+    for i, t in enumerate(case['tables']):
+        toc = _build_toc(t['entries'], t['kind'] == 'param')
+        tables.append((t['crc'], toc, _snapshot(toc.toc), ParamTocElement if t['kind'] == 'param' else LogTocElement))
+    errors = []
+    tc.open = gated_open
+    tc.os = _Os()
+    try:
+        def worker(i):
+            gate.tid.v = i
+            try:
+                cache = tc.TocCache(rw_cache=d)
+                cache.insert(tables[i][0], tables[i][1].toc)
+            except Exception as e:  # noqa
+                errors.append((i, repr(e)))
+            finally:
+                gate.finish(i)
+        ths = [threading.Thread(target=worker, args=(i,), daemon=True) for i in range(len(tables))]
+        for t in ths:
+            t.start()
+        for t in ths:
+            t.join(30)
+    finally:
+        del tc.open
+        tc.os = real_os
+    try:
+        if errors:
+            out.fail('cache:insert-raised:concurrent', 'order %r: %r' % (case['order'], errors[:2]))
+        hits = 0
+        for i, (crc, toc, snap, cls) in enumerate(tables):
+            got = tc.TocCache(rw_cache=d).fetch(crc)
+            if got is None:
+                continue
+            hits += 1
+            if _snapshot(got) != snap:
+                out.fail('cache:wrong-table:concurrent-inserts', 'tables %r inserted at the same time into one directory, file operations in the order %r: '
+                         'checksum %08X yields %r, stored was %r' % ([(t['kind'], '%08X' % t['crc'], len(t['entries'])) for t in case['tables']], case['order'], crc,
+                                                                      sorted(_snapshot(got))[:4], sorted(snap)[:4]))
+        out.nontrivial = len(set(case['order'][:4])) > 1
+        out.feat('interleaved' if out.nontrivial else 'sequential', 'hits-%d-of-%d' % (hits, len(tables)))
+    finally:
+        shutil.rmtree(d, ignore_errors=True)
+    return out
+
+
+@st.composite
+def concurrent_case(draw):
+    nt = draw(st.sampled_from([2, 2, 3]))
+    tables = []
+    crcs = draw(st.lists(st.integers(0, 0xFFFFFFFF), min_size=nt, max_size=nt, unique=True))
+    for i in range(nt):
+        t = draw(direct_case())
+        t['crc'] = crcs[i]
+        t['entries'] = [dict(e, ident=j) for j, e in enumerate(t['entries'])]
+        tables.append(t)
+    order = draw(st.lists(st.integers(0, nt - 1), min_size=0, max_size=14))
+    return {'tables': tables, 'order': order}
+
+
+def concurrent_cases(tier):
+    import itertools
+    ta = {'kind': 'log', 'crc': 0x11111111, 'entries': [{'group': 'a', 'name': 'x%d' % i, 'type': 7, 'ident': i} for i in range(3)]}
+    tb = {'kind': 'log', 'crc': 0x22222222, 'entries': [{'group': 'b', 'name': 'y%d' % i, 'type': 1, 'ident': i} for i in range(12)]}
+    tp = {'kind': 'param', 'crc': 0x33333333, 'entries': [{'group': 'p', 'name': 'z%d' % i, 'type': 8, 'ident': i, 'ro': False, 'extended': i == 1} for i in range(2)]}
+    for pair in ((ta, tb), (tb, ta), (ta, tp)):
+        for order in itertools.product((0, 1), repeat=6 if tier == 'quick' else 8):
+            yield {'tables': list(pair), 'order': list(order)}
+
+
 # ---------------------------------------------------------------- integrated
 def run_integrated(case):
     out = Outcome()
@@ -349,4 +505,6 @@ def subchecks(tier):
     return [
         Sub('direct', run_direct, strategy=direct_case(), examples={'quick': 120, 'thorough': 4000}),
         Sub('integrated', run_integrated, strategy=integrated_case(), examples={'quick': 150, 'thorough': 6000}),
+        Sub('concurrent-inserts', run_concurrent, cases=concurrent_cases, distinct_by_construction=True, shardable=True),
+        Sub('concurrent-inserts-random', run_concurrent, strategy=concurrent_case(), examples={'quick': 60, 'thorough': 3000}),
     ]
